@@ -415,6 +415,11 @@ def run(R):
     for t in range(cnt):
         m = R.rng.choice([1, 2, 3, 4, 4, 5, 6, 7, 8])
         n = R.rng.choice([1, 2, 3, 4, 6, 8, 9])
+        if t % 10 == 3:
+            # (round 6, C13-17) many alternatives and few voters: 33..48 alternatives, several tied at the top under the positional rules
+            m = R.rng.choice([33, 34, 40, 48])
+            n = R.rng.choice([2, 3, 4])
+            R.count("many_alternatives(m>32)")
         P = V.structured_profile(R.rng, n, m) if R.rng.random() < 0.6 else V.rand_profile(R.rng, n, m)
         it = {"P": P, "m": m, "vals": consistent_vals(R.rng, P, m), "k": R.rng.randint(1, m), "kapp": (m + R.rng.randint(1, 2)) if t % 8 == 0 else None, "lam": R.rng.randint(1, m),
               "seed": R.rng.randrange(10 ** 6)}
